@@ -180,8 +180,17 @@ def stmt(draw: Any, depth: int = 2, in_func: bool = False, in_loop: bool = False
     if kind == "augassign":
         return ast.AugAssign(target=draw(name(ast.Store())), op=draw(st.sampled_from(BINOPS))(), value=e())
     if kind == "annassign":
-        return ast.AnnAssign(target=draw(name(ast.Store())), annotation=ast.Name(id="int", ctx=ast.Load()),
-                             value=draw(st.one_of(st.none(), expr(2))), simple=1)
+        tgt = draw(st.sampled_from(["name", "name", "paren_name", "attr", "subscript"]))
+        if tgt in ("name", "paren_name"):
+            # `(x): int = 3` is a NON-simple annotated assignment (no entry in __annotations__)
+            return ast.AnnAssign(target=draw(name(ast.Store())), annotation=ast.Name(id="int", ctx=ast.Load()),
+                                 value=draw(st.one_of(st.none(), expr(2))), simple=1 if tgt == "name" else 0)
+        if tgt == "attr":
+            target_: Any = ast.Attribute(value=draw(name()), attr=draw(st.sampled_from(ATTRS)), ctx=ast.Store())
+        else:
+            target_ = ast.Subscript(value=draw(name()), slice=draw(expr(1)), ctx=ast.Store())
+        return ast.AnnAssign(target=target_, annotation=ast.Name(id="int", ctx=ast.Load()),
+                             value=draw(st.one_of(st.none(), expr(2))), simple=0)
     if kind == "expr":
         return ast.Expr(value=e(3))
     if kind == "pass":
